@@ -37,6 +37,12 @@ def loop_key(s):
 
 class LoopMixin:
     def find_loop_spec(self, s, st: State):
+        ls, key = self._find_loop_spec(s, st)
+        if ls is not None and st.frame.spec is self.root_spec:
+            self.loop_specs_used.add(id(ls))
+        return ls, key
+
+    def _find_loop_spec(self, s, st: State):
         fr = st.frame
         spec = fr.spec
         if spec is None:
@@ -401,11 +407,13 @@ class LoopMixin:
         titems = self.tuple_items(it)
         if titems is not None and (lspec is None or lspec.unroll):
             return self.unroll(s, st, titems)
-        if isinstance(it.t, TConst):
-            it = self.reify(it)
         if isinstance(it.extra, tuple) and it.extra[0] == "dictitems":
             return self.for_dict_items(s, st, it, lspec, key)
+        if isinstance(it.t, TConst):
+            it = self.reify(it)
+        it = self.unbox(it, st)
         if isinstance(it.t, TDict):
+            self.assume_keys_present(it, st)
             it = SV(TList(it.t.k), it.extra["keys"])
         if isinstance(it.t, TList):
             if it.t.elem is None:
@@ -449,7 +457,13 @@ class LoopMixin:
         )
         return f"_i_{first}", f"_seq_{first}"
 
-    def cut_seq(self, s, st: State, seq: SV, lspec, key):
+    def assume_keys_present(self, d: SV, st: State):
+        """Every element of a dict's key list is a key of the dict (the connection between the two halves of the model)."""
+        i = z3.Int(sym.fresh_name("q.key"))
+        keys, has = d.extra["keys"], d.extra["has"]
+        st.assume(z3.ForAll([i], z3.Implies(z3.And(i >= 0, i < z3.Length(keys)), z3.Select(has, keys[i]))))
+
+    def cut_seq(self, s, st: State, seq: SV, lspec, key, items_of=None):
         iname, sname = self.loop_var_names(s)
         st.store[sname] = seq
         st.store[iname] = SV(INT, z3.IntVal(0))
@@ -463,7 +477,13 @@ class LoopMixin:
             assume_terminates=base.assume_terminates,
         )
         test = ast.parse(f"{iname} < len({sname})", mode="eval").body
-        bind = ast.parse(f"__t = {sname}[{iname}]\n{iname} += 1").body
+        if items_of is not None:
+            # for k, v in d.items(): the pair (key, d[key]) for the keys in the dict's order
+            dname = "_dict_" + iname[3:]
+            st.store[dname] = items_of
+            bind = ast.parse(f"__t = ({sname}[{iname}], {dname}[{sname}[{iname}]])\n{iname} += 1").body
+        else:
+            bind = ast.parse(f"__t = {sname}[{iname}]\n{iname} += 1").body
         bind[0].targets = [s.target]
         for b in bind:
             ast.copy_location(b, s)
@@ -497,7 +517,11 @@ class LoopMixin:
         return self.cut_loop(s, st, ls, key, test, s.body, s.orelse, pre_body=bind)
 
     def for_dict_items(self, s, st, it, lspec, key):
-        raise EngineError("iteration over dict.items() is not modelled yet")
+        d = self.unbox(it.extra[1], st)
+        if not isinstance(d.t, TDict):
+            raise EngineError("items() of a non-dict")
+        self.assume_keys_present(d, st)
+        return self.cut_seq(s, st, SV(TList(d.t.k), d.extra["keys"]), lspec, key, items_of=d)
 
     # ------------------------------------------------------------------
     def bi_range(self, args, kwargs, st, node):
